@@ -43,7 +43,8 @@ EXPLANATION = (
     "(R2, abort) transport.abort() - which discards queued output - is not reachable in the manual TLS classes once the handshake may be complete, nor in the inner protocol after a response write. "
     "(R6) listeners do not shorten asyncio's TLS shutdown grace period. "
     "(R7) = C13.E3 client cap on body bytes. (R8) = C07.S4 pump: every decrypted record is handed over at once. "
-    "(R9) = C13.E2: the client hands out the received body bytes as bytes / decoded text for 2x statuses."
+    "(R9) = C13.E2: the client hands out the received body bytes as bytes / decoded text for 2x statuses. "
+    "(R10) no method of GeminiResponse (e.g. __post_init__) stores into status / meta / body anything but the field itself or a byte-preserving conversion: the response object is a carrier, and a rewrite there changes every response before the sink sees it."
 )
 
 PARTIAL_WRITE = {
@@ -418,6 +419,9 @@ def run(chk: Check) -> None:
     from .c13 import rule_e2
 
     reuse(chk, rule_e2, "R9", "the library's client hands out the body as the bytes received after the header (bytes for binary types, decoded str for text), for exactly the 2x statuses (= C13.E2): what a handler returned is what a caller - including the reverse proxy - gets", ("E2",))
+    from .common import response_fields_immutable
+
+    response_fields_immutable(chk, "R10", "the bytes the client receives are not the ones the handler returned (a bytes body decoded with the declared charset is written back as UTF-8)")
     reuse(chk, rule_e3, "R7", "the client's size cap is applied to the buffered body (len(self.buffer) after the header was split off), is finite, and exceeding it reports an error and closes (= C13.E3)", ("E3",))
     chk.trusted = ["CPython ast parser", "engine resolver (attribute annotations)", "asyncio transports deliver everything given to write() before close() completes", "OpenSSL.SSL.Connection.sendall loops until everything is written"]
     chk.assumptions = ["record/buffer boundary behaviour and back-pressure are not decided"]
